@@ -47,9 +47,9 @@ pub(crate) fn c03_v2_accessors_no_panic_240() {
     core::mem::forget(r);
 }
 
-/// Iteration terminates within n/3 + 1 items on any section (explicit step bound);
-/// the loop is bounded only by the iterator itself, so the unwinding assertion
-/// proves termination within the bound.
+/// Iteration terminates within n/3 + 1 items on any section: the iterator is called at most n/3 + 2
+/// times and must have returned `None` by then (an explicit assertion, so that a counterexample can
+/// be replayed natively without hanging).
 macro_rules! tlv_terminates {
     ($name:ident, $n:expr, $unwind:expr) => {
         #[kani::proof]
@@ -61,15 +61,20 @@ macro_rules! tlv_terminates {
             kani::assume(n <= N);
             let mut it = TypeLengthValues::from(&buf[..n]);
             let mut items = 0usize;
-            loop {
+            let mut done = false;
+            let mut calls = 0usize;
+            while calls < N / 3 + 2 {
                 let x = it.next();
-                let done = x.is_none();
+                let end = x.is_none();
                 core::mem::forget(x);
-                if done {
+                if end {
+                    done = true;
                     break;
                 }
                 items += 1;
+                calls += 1;
             }
+            assert!(done, "TLV iteration did not end within n/3 + 1 items");
             assert!(items <= n / 3 + 1);
             kani::cover!(items == N / 3, "maximal item count");
             kani::cover!(items == 1 && n == N, "single item spanning the section");
